@@ -35,9 +35,8 @@ def entries_from_dense(arr, common):
 ROWID_FORMS = ["uint32-contiguous", "uint32-contiguous", "uint32-column-view", "uint32-column-view", "uint32-readonly"]
 #   form["coords"]  constructor only: "python-int" | "numpy.<int dtype>" - type of the VALUE coordinate of every dict key
 # NumPy-scalar commons / coordinates are generated in ANY dtype that holds them, including AT the dtype's maximum
-# (np.uint8(255), np.int8(127), ...: the inferred extent max(...) + 1 wrapped there until fix F24).  Explicit extents as
-# NumPy scalars keep one unit of headroom (c02.add_cube_forms): the working extent e + 1 is still computed in the
-# scalar's own dtype (notes/cube-count.md, FORM-1b).
+# (np.uint8(255), np.int8(127), ...: the inferred extent max(...) + 1 wrapped there until fix F24, the working extent
+# e + 1 of an explicit NumPy-scalar extent until fix F27).
 SCALAR_HEADROOM = 0
 DTYPE_MAXES = {127: "int8", 255: "uint8", 32767: "int16", 65535: "uint16"}
 
